@@ -95,3 +95,16 @@ package context
 //@   ensures true
 //@   modifies frame evalframe
 //@   trusted call contracts pending
+
+//@ func NewDataContext
+//@   props C06
+//@   ensures fresh(result) && result != nil && fresh(result.base) && result.base != nil
+//@   modifies nothing
+//@   nopanic
+
+//@ func (*DataContext).loadInnerUDF
+//@   props C06
+//@   requires dc != nil && dc.base != nil && !held(dc.lockBase)
+//@   ensures dc.base == old(dc.base)
+//@   modifies mapcontents(dc.base)
+//@   nopanic
